@@ -11,6 +11,8 @@ package connectconformance
 import (
 	"errors"
 	"fmt"
+	"os"
+	"path/filepath"
 	"regexp"
 	"sort"
 	"strconv"
@@ -23,6 +25,7 @@ import (
 	conformancev1 "connectrpc.com/conformance/internal/gen/proto/go/connectrpc/conformance/v1"
 	"connectrpc.com/conformance/internal/verif/gate"
 	"connectrpc.com/conformance/internal/verif/rep"
+	"google.golang.org/protobuf/encoding/protojson"
 )
 
 type c04Scenario struct {
@@ -33,6 +36,50 @@ type c04Scenario struct {
 	Feedback   []bool   `json:"feedback"` // per dispatch position
 	ClientExit string   `json:"client_exit"`
 	ExitAt     int      `json:"exit_at"`
+}
+
+var c04FileCache = map[string][2]string{}
+
+// c04Files writes the configuration and the suite for a scenario family to
+// disk (once per process) so that the real Run() can load them.
+func c04Files(cfg string) (string, []string) {
+	if f, ok := c04FileCache[cfg]; ok {
+		return f[0], []string{f[1]}
+	}
+	dir, err := os.MkdirTemp(os.Getenv("VERIF_WORKDIR"), "c04-")
+	if err != nil {
+		panic(err)
+	}
+	versions, protocols := "[HTTP_VERSION_1]", "[PROTOCOL_CONNECT]"
+	switch cfg {
+	case "C2":
+		versions = "[HTTP_VERSION_1, HTTP_VERSION_2]"
+	case "C3":
+		versions, protocols = "[HTTP_VERSION_1, HTTP_VERSION_2]", "[PROTOCOL_CONNECT, PROTOCOL_GRPC]"
+	}
+	conf := "features:\n  versions: " + versions + "\n  protocols: " + protocols + `
+  codecs: [CODEC_PROTO]
+  compressions: [COMPRESSION_IDENTITY]
+  streamTypes: [STREAM_TYPE_UNARY]
+  supportsTls: false
+  supportsH2c: true
+  supportsConnectGet: false
+  supportsMessageReceiveLimit: false
+`
+	cf := filepath.Join(dir, "config.yaml")
+	if err := os.WriteFile(cf, []byte(conf), 0o644); err != nil {
+		panic(err)
+	}
+	data, err := protojson.Marshal(c05Suites("one")["s.yaml"])
+	if err != nil {
+		panic(err)
+	}
+	sf := filepath.Join(dir, "s.yaml")
+	if err := os.WriteFile(sf, data, 0o644); err != nil {
+		panic(err)
+	}
+	c04FileCache[cfg] = [2]string{cf, sf}
+	return cf, []string{sf}
 }
 
 // what one case experienced, as seen by the peers
@@ -138,7 +185,7 @@ func c04RunOne(t *testing.T, sc c04Scenario, prefix []int, expect []gate.PointRe
 				s.StartErr = true
 			}
 			if kind == "reference-server" && k < len(sc.Feedback) && sc.Feedback[k] && k < len(order) {
-				s.Stderr = []string{order[k] + ": server feedback\n"}
+				s.Stderr = []string{order[k] + ": server feedback: with a colon inside\n"}
 			}
 			return s
 		}
@@ -170,7 +217,6 @@ func c04RunOne(t *testing.T, sc c04Scenario, prefix []int, expect []gate.PointRe
 		remove := w.install()
 		defer remove()
 		var mu sync.Mutex
-		var results *testResults
 		var runErr error
 		if !gateNoCache {
 			x.KeyFn = func() string {
@@ -179,45 +225,38 @@ func c04RunOne(t *testing.T, sc c04Scenario, prefix []int, expect []gate.PointRe
 				return w.stateKey() + fmt.Sprintf("|ret=%v", obs.Returned)
 			}
 		}
-		failing, flaky := &testTrie{}, &testTrie{}
+		logP, errP := &c11Printer{}, &c11Printer{}
+		flags := c05Flags(c05Scenario{Mode: sc.Mode, MaxServers: 1})
+		flags.ConfigFile, flags.TestFiles = c04Files(sc.Cfg)
 		for i, n := range order {
 			if i < len(sc.Marks) {
 				switch sc.Marks[i] {
 				case "failing":
-					failing.addPattern(n)
+					flags.KnownFailingPatterns = append(flags.KnownFailingPatterns, n)
 				case "flaky":
-					flaky.addPattern(n)
+					flags.KnownFlakyPatterns = append(flags.KnownFlakyPatterns, n)
 				}
 			}
 		}
-		logP, errP := &c11Printer{}, &c11Printer{}
-		flags := c05Flags(c05Scenario{Mode: sc.Mode, MaxServers: 1})
+		var runOK bool
 		x.Go("run", func() {
-			res, err := run(c05Configs(sc.Cfg), failing, flaky, nil, nil, c05Suites("one"), logP, errP, flags)
+			// the exported entry point, exactly what cmd/connectconformance calls
+			ok, err := Run(flags, logP, errP)
 			mu.Lock()
-			results, runErr = res, err
+			runOK, runErr = ok, err
 			obs.Returned = true
 			mu.Unlock()
 		})
 		x.Run(time.Hour, nil)
 		x.End()
 		if obs.Returned {
-			// exactly what Run() does with run()'s result
-			if results == nil {
-				obs.Success = false
-			} else {
-				obs.HasRes = true
-				rp := &c11Printer{}
-				ok := results.report(rp)
-				obs.Report = rp.lines
-				obs.Success = ok && runErr == nil
-				obs.Outcomes = map[string]string{}
-				for k, o := range results.outcomes {
-					obs.Outcomes[k] = fmt.Sprintf("setup=%v err=%v", o.setupError, o.actualFailure)
-				}
-			}
+			obs.Success = runOK && runErr == nil
+			obs.Report = logP.lines
+			obs.HasRes = strings.Contains(strings.Join(logP.lines, "\n"), "Total cases:")
 			if runErr != nil {
 				obs.RunErr = runErr.Error()
+			} else if len(errP.lines) > 0 {
+				obs.RunErr = strings.Join(errP.lines, " | ")
 			}
 		}
 		obs.ErrOut = errP.lines
@@ -612,7 +651,25 @@ func c04BatchScenarios(thorough bool) []c11Scenario {
 				out = append(out, s)
 				// peer feedback
 				s = base
-				s.Answers, s.Marks, s.RefServer, s.Stderr = ans, mk, true, []string{"s/c0: server feedback\n"}
+				s.Answers, s.Marks, s.RefServer, s.Stderr = ans, mk, true, []string{"s/c0: server feedback: with a colon inside\n"}
+				out = append(out, s)
+				// peer feedback about a case that could not run (server died / client pipe closed / no result)
+				for k := 0; k <= n; k++ {
+					s = base
+					s.Answers, s.Marks, s.RefServer, s.ExitAfter = ans, mk, true, k
+					s.Stderr = []string{fmt.Sprintf("s/c%d: server feedback\n", n-1)}
+					out = append(out, s)
+				}
+				for k := 0; k < n; k++ {
+					s = base
+					s.Answers, s.Marks, s.RefServer, s.SendErrAt = ans, mk, true, k
+					s.Stderr = []string{fmt.Sprintf("s/c%d: server feedback\n", n-1)}
+					out = append(out, s)
+				}
+				s = base
+				s.Marks, s.RefServer = mk, true
+				s.Answers = []string{"noresult", "noresult", "noresult"}[:n]
+				s.Stderr = []string{"s/c0: server feedback\n"}
 				out = append(out, s)
 				s = base
 				s.Marks, s.RefClient = mk, true
